@@ -34,6 +34,7 @@ type Case struct {
 	XData      string `json:",omitempty"` // ... and payload (hex)
 	Hops, Secs int    `json:",omitempty"` // header fields the cascade does not look at
 	RespFlag   string `json:",omitempty"` // what the plugin does to the REPLY's broadcast bit: "" | "set" | "clear"
+	Fresh      bool   `json:",omitempty"` // the plugin returns a newly built reply object instead of the one it was handed
 }
 
 // opt82 builds relay-agent-information variants: whatever sub-options a relay adds, the
@@ -113,6 +114,17 @@ func shaper(cur *Case) handler.Handler4 {
 			resp.SetBroadcast()
 		case "clear":
 			resp.SetUnicast()
+		}
+		if cur.Fresh {
+			// same content, another object: what is sent and where is decided by what the
+			// chain RETURNED, not by the skeleton it was handed
+			n, err := dhcpv4.FromBytes(resp.ToBytes())
+			if err != nil {
+				panic(err)
+			}
+			resp.UpdateOption(dhcpv4.OptMessageType(dhcpv4.MessageTypeInform)) // poison the skeleton
+			resp.YourIPAddr = net.IPv4(203, 0, 113, 99).To4()
+			return n, false
 		}
 		return resp, false
 	}
@@ -270,6 +282,22 @@ func run(r *ev.Run) {
 									c.HType = ht
 									eval(r, c)
 								}
+							}
+						}
+					}
+				}
+			}
+		}
+	}
+	// the plugin returns a fresh object (and leaves a misleading skeleton behind)
+	if len(idx) > 0 {
+		for _, gi := range []string{"0.0.0.0", "10.1.2.3"} {
+			for _, ci := range []string{"0.0.0.0", "10.1.2.3", "169.254.7.7"} {
+				for _, bc := range []bool{false, true} {
+					for _, rep := range []string{"OFFER", "ACK", "NAK"} {
+						for _, yi := range yis {
+							for _, bound := range []int{0, idx[0]} {
+								eval(r, Case{GI: gi, CI: ci, YI: yi, Bcast: bc, Reply: rep, Bound: bound, Oob: idx[0], HLen: 6, Fresh: true})
 							}
 						}
 					}
